@@ -211,6 +211,17 @@ fn main() {
         for t in TO_INT_TYPES { for k in TO_INT_KINDS { println!("to_{}_{}", t, k); } }
         return;
     }
+    // `tables`: every constant table of the compiled crate, one line per row (see verif_hooks::dump_tables)
+    #[cfg(decmathlib_rs_verif)]
+    if args.len() > 1 && args[1] == "tables" {
+        let out = std::io::stdout();
+        let mut out = std::io::BufWriter::new(out.lock());
+        decmathlib_rs::verif_hooks::dump_tables(&mut out);
+        out.flush().unwrap();
+        return;
+    }
+    #[cfg(not(decmathlib_rs_verif))]
+    if args.len() > 1 && args[1] == "tables" { eprintln!("tables: built without --cfg decmathlib_rs_verif"); std::process::exit(2); }
     std::panic::set_hook(Box::new(|i| {
         let loc = i.location().map(|l| format!("{}:{}", l.file(), l.line())).unwrap_or_default();
         let msg = i.payload().downcast_ref::<&str>().map(|s| s.to_string()).or(i.payload().downcast_ref::<String>().cloned()).unwrap_or_default();
